@@ -34,17 +34,40 @@ func mismatchEdges(fn *ssa.Function, pred func(bo *ssa.BinOp) bool) [][2]*ssa.Ba
 		if !ok {
 			continue
 		}
-		bo, ok := ifi.Cond.(*ssa.BinOp)
+		cnd, pol := core.StripNot(ifi.Cond, true)
+		bo, ok := cnd.(*ssa.BinOp)
 		if !ok || (bo.Op != token.NEQ && bo.Op != token.EQL) || !pred(bo) {
 			continue
 		}
-		if bo.Op == token.NEQ {
+		// the successor taken when the two sides differ
+		if (bo.Op == token.NEQ) == pol {
 			out = append(out, [2]*ssa.BasicBlock{b, b.Succs[0]})
 		} else {
 			out = append(out, [2]*ssa.BasicBlock{b, b.Succs[1]})
 		}
 	}
 	return out
+}
+
+// mismatchEdgesIn is mismatchEdges over a set of functions.
+func mismatchEdgesIn(scope map[*ssa.Function]bool, pred func(bo *ssa.BinOp) bool) [][2]*ssa.BasicBlock {
+	var out [][2]*ssa.BasicBlock
+	for _, f := range sortedFuncs(scope) {
+		out = append(out, mismatchEdges(f, pred)...)
+	}
+	return out
+}
+
+// fromDigesterIn is fromDigester that looks through the helpers of scope.
+func fromDigesterIn(v ssa.Value, scope map[*ssa.Function]bool) bool {
+	for _, o := range core.Origins(v, core.SliceOpts{Helpers: scope}) {
+		if o.Kind == core.OCall {
+			if cal := o.Callee(); cal != nil && cal.Name() == "Digest" && core.IsNamed(core.CallArg(o.Call, 0).Type(), "github.com/opencontainers/go-digest", "Digester") {
+				return true
+			}
+		}
+	}
+	return false
 }
 
 func fromDigester(v ssa.Value) bool {
@@ -199,40 +222,45 @@ func c05R2(p *core.Prog, r *core.Report) {
 		return
 	}
 	fname := p.FuncName(fn)
+	// the upload may be split over unexported helpers of the package (verification, commit)
+	scope := core.Helpers(fn, 2)
+	fromDig := func(v ssa.Value) bool { return fromDigesterIn(v, scope) }
 	// the closing PUT: Do with a Req literal whose Method is PUT
 	var put ssa.Instruction
-	core.Calls(fn, func(c ssa.CallInstruction) {
-		cal := core.Callee(c)
-		if cal == nil || !core.IsModMethod(cal, "internal/reghttp", "Client", "Do") {
-			return
-		}
-		if al, ok := core.CallArg(c, 2).(*ssa.Alloc); ok {
-			for _, ref := range *al.Referrers() {
-				if fa, ok := ref.(*ssa.FieldAddr); ok && core.FieldName(fa.X.Type(), fa.Field) == "Method" {
-					for _, r2 := range *fa.Referrers() {
-						if st, ok := r2.(*ssa.Store); ok {
-							if s, ok := core.ConstString(st.Val); ok && s == "PUT" {
-								put = c.(ssa.Instruction)
+	for _, f := range sortedFuncs(scope) {
+		core.Calls(f, func(c ssa.CallInstruction) {
+			cal := core.Callee(c)
+			if cal == nil || !core.IsModMethod(cal, "internal/reghttp", "Client", "Do") {
+				return
+			}
+			if al, ok := core.CallArg(c, 2).(*ssa.Alloc); ok {
+				for _, ref := range *al.Referrers() {
+					if fa, ok := ref.(*ssa.FieldAddr); ok && core.FieldName(fa.X.Type(), fa.Field) == "Method" {
+						for _, r2 := range *fa.Referrers() {
+							if st, ok := r2.(*ssa.Store); ok {
+								if s, ok := core.ConstString(st.Val); ok && s == "PUT" {
+									put = c.(ssa.Instruction)
+								}
 							}
 						}
 					}
 				}
 			}
-		}
-	})
+		})
+	}
 	if put == nil {
 		r.Undecided(rule, fname, "closing PUT", p.Pos(fn.Pos()), "no PUT request found")
 		return
 	}
-	dig := mismatchEdges(fn, func(bo *ssa.BinOp) bool {
-		return isDigestType(bo.X.Type()) && (fromDigester(bo.X) || fromDigester(bo.Y))
+	dig := mismatchEdgesIn(scope, func(bo *ssa.BinOp) bool {
+		return isDigestType(bo.X.Type()) && (fromDig(bo.X) || fromDig(bo.Y))
 	})
-	size := mismatchEdges(fn, func(bo *ssa.BinOp) bool {
+	size := mismatchEdgesIn(scope, func(bo *ssa.BinOp) bool {
 		return isIntegerType(bo.X.Type()) && (dependsOnField(bo.X, modPath("types/descriptor"), "Descriptor", "Size") || dependsOnField(bo.Y, modPath("types/descriptor"), "Descriptor", "Size")) && !isConstZero(bo.Y) && !isConstZero(bo.X)
 	})
 	reach := func(edges [][2]*ssa.BasicBlock) bool {
 		for _, e := range edges {
-			if (core.Reach{}).FromEdge(e[0], e[1])[put] {
+			if (core.DeepReach{Scope: scope}).FromEdge(e[0], e[1])[put] {
 				return true
 			}
 		}
@@ -242,25 +270,40 @@ func c05R2(p *core.Prog, r *core.Report) {
 	r.Check(len(size) > 0 && !reach(size), rule, fname, "PUT behind the size comparison", p.Pos(put.Pos()), "the declared size is compared with the number of bytes sent; the mismatch edge cannot reach the closing PUT")
 	// digest query parameter from the digester
 	qOK := false
-	core.Calls(fn, func(c ssa.CallInstruction) {
-		cal := core.Callee(c)
-		if cal == nil || !core.IsFunc(cal, "net/url", "QueryEscape") {
-			return
-		}
-		for _, oc := range originCalls(c.Common().Args[0]) {
-			if f := core.Callee(oc); f != nil && f.Name() == "String" && fromDigester(core.CallArg(oc, 0)) {
-				qOK = true
+	dOK := false
+	for _, f := range sortedFuncs(scope) {
+		core.Calls(f, func(c ssa.CallInstruction) {
+			cal := core.Callee(c)
+			if cal == nil || !core.IsFunc(cal, "net/url", "QueryEscape") {
+				return
+			}
+			for _, o := range core.Origins(c.Common().Args[0], core.SliceOpts{Helpers: scope}) {
+				if o.Kind == core.OCall && o.Callee() != nil && o.Callee().Name() == "String" {
+					recv := core.CallArg(o.Call, 0)
+					if fromDig(recv) {
+						qOK = true
+					}
+					// the descriptor's digest, which the comparison above has established to be the
+					// computed one (or which was filled in from it)
+					if dependsOnField(recv, modPath("types/descriptor"), "Descriptor", "Digest") && len(dig) > 0 && !reach(dig) {
+						qOK = true
+					}
+					for _, o2 := range core.Origins(recv, core.SliceOpts{Helpers: scope}) {
+						if o2.Kind == core.OField && o2.Field == "Digest" && len(dig) > 0 && !reach(dig) {
+							qOK = true
+						}
+					}
+				}
+			}
+		})
+		// returned descriptor after the PUT: Digest stored from the digester
+		for _, fs := range fieldStores([]*ssa.Function{f}, func(n *types.Named, fl string) bool { return n.Obj().Name() == "Descriptor" && fl == "Digest" }) {
+			if fromDig(fs.Store.Val) {
+				dOK = true
 			}
 		}
-	})
-	r.Check(qOK, rule, fname, "digest parameter from the digester", p.Pos(put.Pos()), "the digest= parameter of the closing PUT is the digest computed over the bytes that were sent")
-	// returned descriptor after the PUT: Digest stored from the digester
-	dOK := false
-	for _, fs := range fieldStores([]*ssa.Function{fn}, func(n *types.Named, f string) bool { return n.Obj().Name() == "Descriptor" && f == "Digest" }) {
-		if fromDigester(fs.Store.Val) {
-			dOK = true
-		}
 	}
+	r.Check(qOK, rule, fname, "digest parameter from the digester", p.Pos(put.Pos()), "the digest= parameter of the closing PUT is the digest computed over the bytes that were sent")
 	r.Check(dOK, rule, fname, "returned digest from the digester", p.Pos(put.Pos()), "the descriptor returned on success carries the computed digest")
 }
 
@@ -305,6 +348,70 @@ func c05R3(p *core.Prog, r *core.Report) {
 		g := core.CalleeFn(c)
 		return g != nil && g.Name() == "blobUploadCancel"
 	}
+	// the cancel may be deferred behind a flag: `abandon := false; defer func(){ if abandon { cancel } }()`.
+	// Setting the flag then counts as the cancel.
+	flagCells := map[*ssa.Alloc]bool{}
+	core.Calls(fn, func(c ssa.CallInstruction) {
+		d, ok := c.(*ssa.Defer)
+		if !ok {
+			return
+		}
+		mc, ok := d.Call.Value.(*ssa.MakeClosure)
+		if !ok {
+			return
+		}
+		lit, _ := mc.Fn.(*ssa.Function)
+		if lit == nil {
+			return
+		}
+		for i, bnd := range mc.Bindings {
+			cell, ok := bnd.(*ssa.Alloc)
+			if !ok || i >= len(lit.FreeVars) {
+				continue
+			}
+			if pt, ok := cell.Type().Underlying().(*types.Pointer); !ok || !types.Identical(pt.Elem().Underlying(), types.Typ[types.Bool]) {
+				continue
+			}
+			fv := lit.FreeVars[i]
+			for _, b := range lit.Blocks {
+				for _, in := range b.Instrs {
+					if !isCancel(in) {
+						continue
+					}
+					if guardedBy(b, true, func(v ssa.Value) bool {
+						u, ok := v.(*ssa.UnOp)
+						return ok && u.Op == token.MUL && u.X == ssa.Value(fv)
+					}) {
+						flagCells[cell] = true
+					}
+				}
+			}
+		}
+	})
+	setsFlag := func(in ssa.Instruction, step *ssa.Call) bool {
+		st, ok := in.(*ssa.Store)
+		if !ok {
+			return false
+		}
+		cell, ok := st.Addr.(*ssa.Alloc)
+		if !ok || !flagCells[cell] {
+			return false
+		}
+		if b, isC := core.ConstBool(st.Val); isC && b {
+			return true
+		}
+		// flag = err != nil, err being the step's own error
+		if step != nil {
+			if x, neq, isNil := errCmpNil(st.Val); isNil && neq {
+				for _, oc := range originCalls(x) {
+					if oc == step {
+						return true
+					}
+				}
+			}
+		}
+		return false
+	}
 	// (a) chunked only via the Seek
 	ok := true
 	for _, e := range errEdgesOf(fn, full) {
@@ -344,10 +451,24 @@ func c05R3(p *core.Prog, r *core.Report) {
 	r.Check(ok, rule, fname, "no fall-back after a failed rewind", p.Pos(seek.Pos()), "when the source cannot be rewound to offset 0 the chunked upload (which would send a stream missing its beginning) is unreachable")
 	// (c) failures cancel
 	for _, step := range []*ssa.Call{full, chunked} {
+		step := step
+		stop := func(in ssa.Instruction) bool {
+			return isCancel(in) || in == ssa.Instruction(chunked) || setsFlag(in, step)
+		}
 		okc := len(errEdgesOf(fn, step)) > 0
 		for _, e := range errEdgesOf(fn, step) {
-			seen := core.Reach{Stop: func(in ssa.Instruction) bool { return isCancel(in) || in == ssa.Instruction(chunked) }}.FromEdge(e[0], e[1])
+			seen := core.Reach{Stop: stop}.FromEdge(e[0], e[1])
 			for in := range seen {
+				if _, isRet := in.(*ssa.Return); isRet {
+					okc = false
+				}
+			}
+		}
+		if len(errEdgesOf(fn, step)) == 0 {
+			// no branch on the step's error: every path from the step to a return must record the failure
+			// in the cancel flag (`abandon = err != nil`)
+			okc = true
+			for in := range (core.Reach{Stop: func(in ssa.Instruction) bool { return setsFlag(in, step) && !isConstTrueStore(in) }}).FromInstr(step) {
 				if _, isRet := in.(*ssa.Return); isRet {
 					okc = false
 				}
@@ -381,4 +502,13 @@ func c05R3(p *core.Prog, r *core.Report) {
 		}
 	}
 	r.Check(bodyOK, rule, p.FuncName(fullFn), "body function rewinds or refuses", p.Pos(fullFn.Pos()), "a re-used body either seeks the source to its start or returns ErrNotRetryable (a retried PUT never sends the tail of a partly consumed stream)")
+}
+
+func isConstTrueStore(in ssa.Instruction) bool {
+	st, ok := in.(*ssa.Store)
+	if !ok {
+		return false
+	}
+	b, isC := core.ConstBool(st.Val)
+	return isC && b
 }
